@@ -248,6 +248,12 @@ class EffectInterp(Interpreter):
             t = self.truth(self.ev(node.test, env))
             if isinstance(t, bool):
                 cont = t
+                if cont and n >= self.LOOP_BOUND and not isinstance(node.test, ast.Constant):
+                    # the test was decided by branching inside the call (e.g. aeval_test): same shape bound as for an opaque
+                    # truth value - paths with more iterations are not explored
+                    self.eng.assume(z3.BoolVal(False))
+                    from .interp import PathEnd
+                    raise PathEnd()
                 if cont and n > 64:
                     raise OutOfReach("concrete while loop does not terminate")
             elif n >= self.LOOP_BOUND:
